@@ -329,17 +329,17 @@ func c19less(parent *ssa.Function, mc *ssa.MakeClosure, sorted ssa.Value) (bool,
 
 // c19descriptor: on the IsAscending edge result = key1.CompareTo(key2), otherwise key2.CompareTo(key1); keys from the same descriptor applied to item1/item2.
 func c19descriptor(p *core.Prog, f *ssa.Function, sign int64) (bool, string) {
-	var cmps []*ssa.Call
-	core.Instrs(f, func(ins ssa.Instruction) {
-		if call, ok := ins.(*ssa.Call); ok && call.Call.IsInvoke() && call.Call.Method.Name() == "CompareTo" {
-			cmps = append(cmps, call)
-		}
-	})
-	if len(cmps) != 2 {
-		return false, fmt.Sprintf("expected two CompareTo calls (ascending / descending), found %d", len(cmps))
+	collect := func(g *ssa.Function) []*ssa.Call {
+		var out []*ssa.Call
+		core.Instrs(g, func(ins ssa.Instruction) {
+			if call, ok := ins.(*ssa.Call); ok && call.Call.IsInvoke() && call.Call.Method.Name() == "CompareTo" {
+				out = append(out, call)
+			}
+		})
+		return out
 	}
-	// key of item k: call of descriptor.TransformedBy()(item_k)
-	keyOf := func(v ssa.Value) int {
+	// key of item k as seen in f: call of descriptor.TransformedBy()(item_k)
+	keyOfInF := func(v ssa.Value) int {
 		call, ok := core.Resolve(v).(*ssa.Call)
 		if !ok || len(call.Call.Args) != 1 {
 			return -1
@@ -350,6 +350,47 @@ func c19descriptor(p *core.Prog, f *ssa.Function, sign int64) (bool, string) {
 			}
 		}
 		return -1
+	}
+	host := f
+	keyOf := keyOfInF
+	cmps := collect(f)
+	var via *ssa.Call
+	if len(cmps) == 0 {
+		// the comparison may live in a helper called from f with the two keys
+		core.Instrs(f, func(ins ssa.Instruction) {
+			if call, ok := ins.(*ssa.Call); ok {
+				if g := core.Callee(&call.Call); g != nil && p.InRepo(g) && g != f && len(collect(g)) > 0 {
+					host, via = g, call
+				}
+			}
+		})
+		if via == nil {
+			return false, "no CompareTo call found in the descriptor comparator"
+		}
+		cmps = collect(host)
+		keyOf = func(v ssa.Value) int {
+			v = core.Unwrap(core.Resolve(v))
+			for i, prm := range host.Params {
+				if v == ssa.Value(prm) && i < len(via.Call.Args) {
+					return keyOfInF(via.Call.Args[i])
+				}
+			}
+			return -1
+		}
+		// the helper's verdict must flow into f's result
+		flows := false
+		for _, r := range *via.Referrers() {
+			switch r.(type) {
+			case *ssa.Store, *ssa.Phi, *ssa.Return, *ssa.BinOp:
+				flows = true
+			}
+		}
+		if !flows {
+			return false, "the comparison helper's result does not flow into the comparator's result"
+		}
+	}
+	if len(cmps) != 2 {
+		return false, fmt.Sprintf("expected two CompareTo calls (ascending / descending), found %d", len(cmps))
 	}
 	for _, cm := range cmps {
 		asc, known := false, false
